@@ -3,6 +3,7 @@ package main
 import (
 	"bytes"
 	"fmt"
+	"github.com/contiv/libOpenflow/protocol"
 	"sort"
 	"sync"
 
@@ -125,6 +126,27 @@ func runC14(seed uint64, tier, dir, replay string) error {
 				f, _ := g.mf()
 				fb, _ := f.MarshalBinary()
 				out.Write(fb)
+				// packet headers too: a frame through encode and decode, a registry lookup by a
+				// lower-case name, and DHCP messages with a library-drawn id (the id is erased: only
+				// the library's state behind it is of interest here)
+				e, _ := g.ethernet()
+				if eb, err := e.MarshalBinary(); err == nil {
+					out.Write(eb)
+					d := new(protocol.Ethernet)
+					if d.UnmarshalBinary(eb) == nil {
+						rb, _ := d.MarshalBinary()
+						out.Write(rb)
+					}
+				}
+				if h, err := of.FindFieldHeaderByName([]string{"nxm_nx_reg3", "Nxm_Nx_Ct_Mark", "oxm_of_eth_dst", "NXM_NX_XXREG1"}[g.r.Intn(4)], g.r.Bool()); err == nil {
+					out.Write([]byte{byte(h.Class >> 8), byte(h.Class), h.Field, h.Length})
+				}
+				if dh, err := protocol.NewDHCPDiscover(0, g.r.Bytes(6)); err == nil {
+					dh.Xid = 0
+					db := make([]byte, dh.Len())
+					n, _ := dh.Read(db)
+					out.Write(db[:n])
+				}
 			}()
 		}
 		return out.Bytes()
@@ -162,6 +184,6 @@ func runC14(seed uint64, tier, dir, replay string) error {
 	}
 	o.Add(fmt.Sprintf("(Conc %d %d %d)", workers, workers*jobsPer, mismatch),
 		map[string]interface{}{"kind": "concurrent-work", "goroutines": workers, "jobs": workers * jobsPer, "mismatches": mismatch}, "concurrent-work", "w")
-	o.Meta["rule"] = "transaction ids drawn by 2..64 goroutines (through NewOfp13Header and through generators of their own for versions 1, 4 and 5) from random counter values incl. values that wrap inside the round (all ids travel, sorted) and large rounds (statistics only); 32 goroutines building, encoding and parsing independent messages of all controller kinds and match fields, compared byte for byte (ids erased) with a sequential run of the same jobs; the harness is built with -race; distinct by goroutines x draws x wrap"
+	o.Meta["rule"] = "transaction ids drawn by 2..64 goroutines (through NewOfp13Header and through generators of their own for versions 1, 4 and 5) from random counter values incl. values that wrap inside the round (all ids travel, sorted) and large rounds (statistics only); 32 goroutines building, encoding and parsing independent messages of all controller kinds, match fields, Ethernet frames, DHCP messages with library-drawn ids and registry lookups by mixed-case names, compared byte for byte (ids erased) with a sequential run of the same jobs; the harness is built with -race; distinct by goroutines x draws x wrap"
 	return o.Close()
 }
